@@ -212,8 +212,9 @@ func Verif_C03_router() {
 	pr := NewRouter().(*patRouter)
 	// The three environment dimensions (how pattern 0 is written, how the
 	// request path is written, default/custom fallback handlers) are combined
-	// in 4 modes rather than 32: every value of each meets every table and request.
-	mode := verifChoose("mode", 4)
+	// in 4 modes rather than 32: every value of each meets every table and request
+	// (the 3-route tier runs modes 1 and 2 only; the 2-route tier all four).
+	mode := verifParam("modeBase") + verifChoose("mode", verifParam("modes"))
 	custom := mode%2 == 1
 	if custom {
 		pr.SetNotFoundHandler(verifH{-1, env})
